@@ -148,7 +148,7 @@ func (w *qWorld) materialise(ctx boltz.MutateContext, ds *rm.DS) error {
 		tags := map[string]interface{}{}
 		for k, v := range e.Tags {
 			if !v.IsNull() {
-				tags[k] = valToGo(v, false)
+				tags[k] = valToGo(v, k == "h")
 			}
 		}
 		r.With("tags", tags)
@@ -203,7 +203,7 @@ var qDomains = map[string][]rm.Val{
 	"f":   {rm.Null, rm.Flt(4.5), rm.Flt(5.0)},
 	"b":   {rm.Null, rm.Bool(true), rm.Bool(false)},
 	"t":   {rm.Null, rm.Time(qT0), rm.Time(qT1)},
-	"tag": {rm.Null, rm.Str("a"), rm.Str("5"), rm.Int(5), rm.Flt(4.5), rm.Bool(true), rm.Bool(false)},
+	"tag": {rm.Null, rm.Str("a"), rm.Str("5"), rm.Int(5), rm.Flt(4.5), rm.Bool(true), rm.Bool(false), rm.Int(-4)},
 }
 
 var qRoleSets = [][]string{nil, {"a"}, {"b"}, {"x"}, {"a", "b"}, {"a", "x"}, {"b", "x"}, {"a", "b", "x"}}
@@ -238,6 +238,7 @@ func applyChoice(e *rm.Ent, field string, c int, ids []string) {
 		e.Fk["chief"] = e.Fk["boss"] // the symbol `chief` reads the key `boss`
 	case "tag":
 		e.Tags["k"] = qDomains["tag"][c]
+		e.Tags["h"] = qDomains["tag"][c] // same value; integers under this key are stored 32 bits wide
 	default:
 		e.F[field] = qDomains[field][c]
 		if field == "s" {
